@@ -594,7 +594,7 @@ func (e *vf15Env) op(kind string, tok string) string {
 		if err != nil {
 			return "err"
 		}
-		return "ok"
+		return e.dpResult()
 	case "d":
 		return e.dump(true)
 	case "w":
